@@ -70,7 +70,7 @@ def main(ctx, replay=None):
     if res.distinct != 144 * 144:
         raise MachineryError(f"C16 explored {res.distinct} states, expected {144*144}")
     ctx.cov["exhaustive"] = True
-    ctx.cov["rule"] = ("all 20736 ordered pairs of dictionary trees over keys {a,b}, leaves {1,2}, depth <= 2 (merge); all single-field "
+    ctx.cov["rule"] = ("all 20736 ordered pairs of dictionary trees over keys {a,b}, leaves {0,2}, depth <= 2 (merge); all single-field "
                        "perturbations over the documented fields x value classes x 3 valid bases x {yaml,json} (validation); non-trivial = "
                        "both trees non-empty / perturbation other than 'none'")
     ctx.assumptions += ["classes the documentation is silent on (integral floats for integer fields, extra keys in qha.settings or "
